@@ -37,12 +37,15 @@ def sow(crop, api, n, **kw):
         crop.sow_cases(("a", "b"), case_list(n), verbosity=0, **kw)
     elif api == 2:
         crop.sow_cases(None, [{"a": a, "b": b} for a, b in case_list(n)], verbosity=0, **kw)
+    elif api == 4:
+        # the same cases x sub-grid, through sow_cases with the sub-grid given as a dict
+        crop.sow_cases(("a",), [(10 + i,) for i in range(n)], combos={"b": [20, 21]}, verbosity=0, **kw)
     else:
         crop.sow_combos({"b": [20, 21]}, cases=[{"a": 10 + i} for i in range(n)], verbosity=0, **kw)
 
 
 def total(api, n):
-    return 2 * n if api == 3 else n
+    return 2 * n if api in (3, 4) else n
 
 
 def reaped_equals_direct(api, out, ref):
@@ -80,7 +83,7 @@ def same_nested(x, y):
 # --------------------------------------------------------------------------
 # (a) batching
 def body_batching(E, api, n, mode, b, base):
-    api = concretize(api, 0, 3)
+    api = concretize(api, 0, 4)
     n = concretize(n, 1, 10)
     mode = concretize(mode, 0, 2)
     N = total(api, n)
@@ -316,6 +319,10 @@ CONDS = (
     + [make_cond(_G, "batching_api3", body_batching, "n:int mode:int b:int base:int",
                  ["1 <= n <= 3 and 0 <= mode <= 2 and 1 <= b <= 2 * n + 2"], fixed=dict(api=3),
                  timeout=200, tiers=("quick",), bounds="N=2n<=6 settings; " + _B + " [api=3]")]
+    + [make_cond(_G, "batching_api4", body_batching, "n:int mode:int b:int base:int",
+                 ["1 <= n <= 3 and 0 <= mode <= 2 and 1 <= b <= 2 * n + 2"], fixed=dict(api=4),
+                 timeout=200, tiers=("quick",),
+                 bounds="N=2n<=6 settings; " + _B + " [cases x sub-grid through sow_cases(combos=<dict>)]")]
     + [make_cond(_G, "batching_t_api%d_n%d" % (api, n), body_batching, "mode:int b:int base:int",
                  ["0 <= mode <= 2 and 1 <= b <= %d" % ((2 * n if api == 3 else n) + 2)],
                  fixed=dict(api=api, n=n), timeout=300, tiers=("thorough",),
